@@ -232,8 +232,12 @@ def h_m_new(w, st, rec):
                 if isinstance(params[k], tuple):
                     spec[k] = enc(np.array(getattr(obj, attr), copy=True))
             spec["seed"] = None
-        register_model(w, st, rec["id"], mtype, obj, spec,
-                       [rec[k]["__ref__"] for k in PARAMS[mtype] if is_ref(rec[k])])
+        refs = [rec[k]["__ref__"] for k in PARAMS[mtype] if is_ref(rec[k])]
+        register_model(w, st, rec["id"], mtype, obj, spec, refs)
+        if any(sum(1 for mm in st.models.values() if r in mm["bufs"]) >= 2 for r in refs):
+            w.probes["two_models_from_one_caller_array"] += 1
+        if any(r in st.results for r in refs):
+            w.probes["model_from_generator_output"] += 1
         if mtype == "anm":
             st.bufs[rec["id"] + ".assign"] = params["assign"]
             st.bufs[rec["id"] + ".noise"] = params["noise"]
@@ -546,6 +550,10 @@ def h_scribble(w, st, rec):
         if done:
             w.faults["caller.scribble_output"] += 1
             w.probes["scribble.out:" + r["site"]] += 1
+            for mid, mm in st.models.items():
+                if tgt in mm["bufs"]:
+                    mm["fmask"] |= 1
+                    w.probes["scribble.in:generator_output_used_by_model"] += 1
             if r.get("model") in st.models:
                 st.models[r["model"]]["fmask"] |= 2
     elif tgt in st.bufs:
@@ -846,6 +854,7 @@ class GS:
         self.results = []     # list of (id, model id or None)
         self.repeatable = []  # records worth re-issuing
         self.agenda = []      # records to be emitted later (obligations)
+        self.graph_bufs = []  # (buffer or result id, p) usable as W / A of another model
 
 
 def new_buf(g, gs, ops, c, value, allow_list=True):
@@ -867,16 +876,38 @@ def cast(arr, dt, g):
 def gen_model(g, gs, cfg, ops, c, invalid=False):
     mtype = g.choice(cfg["types"])
     p = g.randint(1, cfg["pmax"]) if cfg["pmax"] <= 12 else cfg["pmax"]
+    if gs.graph_bufs and mtype in ("lganm", "anm") and not invalid and g.random() < 0.35:
+        p = g.choice(gs.graph_bufs)[1]      # so that an existing caller array / generator output can be reused
     gs.nmod += 1
     mid = "m%d" % gs.nmod
     rec = {"c": c, "op": "m.new", "id": mid, "type": mtype}
     bufs = []
 
-    def arg(value, allow_list=True, must_nd=False):
+    def arg(value, allow_list=True, must_nd=False, role=None):
         # caller-owned buffer (shared, scribble-able later) or inline literal
+        if role == "graph" and not invalid and 2 <= p <= 8 and g.random() < 0.1:
+            # the graph comes straight from one of the library's generators
+            gs.nres += 1
+            rid = "r%d" % gs.nres
+            fn = g.choice(["gen.dag_avg_deg", "gen.dag_full"])
+            a = [p, 1.5, 0.5, 1.5] if fn == "gen.dag_avg_deg" else [p, 0.5, 1.5]
+            ops.append({"c": c, "op": "u.call", "fn": fn, "args": a, "kw": {"random_state": g.choice([0, 1, 42])},
+                        "keep": rid})
+            bufs.append(rid)
+            gs.graph_bufs.append((rid, p))
+            return {"__ref__": rid}
+        if role == "graph" and not invalid:
+            same = [(b, sh) for b, sh in gs.graph_bufs if sh == p]
+            if same and g.random() < 0.25:
+                # the same caller array (or an earlier result of a generator) serves a second model
+                bid = g.choice(same)[0]
+                bufs.append(bid)
+                return {"__ref__": bid}
         if g.random() < 0.75:
             bid, as_ = new_buf(g, gs, ops, c, value, allow_list and not must_nd)
             bufs.append(bid)
+            if role == "graph" and as_ != "list" and not invalid:
+                gs.graph_bufs.append((bid, p))
             return {"__ref__": bid}
         return enc(value)
     W = None
@@ -885,7 +916,7 @@ def gen_model(g, gs, cfg, ops, c, invalid=False):
         W = G.rand_dag(g, p, density=(None if p <= 12 else 3.0 / p))
         if invalid:
             W = U.cyclic(g, p).astype(float)
-        rec["W"] = arg(cast(W, dt, g))
+        rec["W"] = arg(cast(W, dt, g), role="graph")
         if g.random() < 0.3:
             lo = G.r2(g, -1, 1)
             rec["means"] = enc((lo, round(lo + G.r2(g, 0, 2), 2)))
@@ -913,7 +944,7 @@ def gen_model(g, gs, cfg, ops, c, invalid=False):
         if invalid:
             A = U.cyclic(g, p).astype(float)
         W = A
-        rec["A"] = arg(cast(A, g.choice(["<f8", "<f8", "<i8", "<i8", "|b1"]), g), must_nd=True)
+        rec["A"] = arg(cast(A, g.choice(["<f8", "<f8", "<i8", "<i8", "|b1"]), g), must_nd=True, role="graph")
         rec["assign"] = [G.rand_assign_spec(g, allow_param=True) for _ in range(p)]
         rec["noise"] = [G.rand_noise_spec(g) if g.random() < 0.75 else ["paramnoise", G.r2(g, -1, 1), G.r2(g, 0.2, 1.5)]
                         for _ in range(p)]
@@ -1121,6 +1152,14 @@ def generate(run_seed, deep=False):
             rec["c"] = c
             if rec["fn"] in ("sampling_matrix",) and g.random() < max(cfg["sweep_rate"], 0.2):
                 rec["sweep"] = True
+            if rec["fn"] in ("gen.dag_avg_deg", "gen.dag_full") and not dec(rec["kw"].get("return_ordering", False)):
+                # the generator's output will be handed on to a model constructor
+                gs.nres += 1
+                rec["keep"] = "r%d" % gs.nres
+                gs.graph_bufs.append((rec["keep"], rec["args"][0]))
+                ops.append(rec)
+                gs.repeatable.append(rec)
+                continue
             if g.random() < 0.5:
                 gs.nres += 1
                 rec["keep"] = "r%d" % gs.nres
@@ -1327,7 +1366,8 @@ REQUIRED_PROBES = ["iv.do.non_source", "iv.shift.non_source", "iv.noise.non_sour
                    "scribble.out:utils.all_dags", "scribble.out:utils.split_data", "meek_rule_fired",
                    "all_dags.undirected_edge", "topological_ordering.with_edges", "split_data.n>=2",
                    "op_after_failed_op_same_model", "natural_LinAlgError", "history.first_vs_later",
-                   "history.aged_vs_twin", "sweep.fault_positions", "sweep.utils", "obs_law.checked", "buf.view", "gc.model_dropped", "gc.model_id_reused",
+                   "history.aged_vs_twin", "sweep.fault_positions", "sweep.utils", "obs_law.checked", "obs_law.checked:anm", "obs_law.checked:nd", "buf.view", "gc.model_dropped",
+                   "gc.model_id_reused", "two_models_from_one_caller_array", "model_from_generator_output",
                    "nd.check_valid"]
 
 
